@@ -62,7 +62,8 @@ def run_unit(path, rlimit=None, seed=None, extra_args=(), quarantine=(), inline=
     # that the unit does not define itself are inlined at their call sites
     if inline:
         try:
-            known = set(re.findall(r'\bfn\s+(\w+)', text)) if text is not None else set()
+            from .inline import defined_names
+            known = defined_names(text) if text is not None else set()
             tdir = os.path.dirname(path)
             for fp in [path] + [os.path.join(tdir, x) for x in re.findall(r'^//@include\s+(\S+)', open(path).read(), re.M)]:
                 tt = open(fp).read()
@@ -142,7 +143,7 @@ def run_unit(path, rlimit=None, seed=None, extra_args=(), quarantine=(), inline=
                 return None
             names.add(l.fn)
         names -= set(quarantine)
-        if not inline and any(re.search(r'cannot find function|no method named|no function or associated item named|cannot find value', d['message']) for d in errs_):
+        if not inline and any(re.search(r'cannot find function|no method named|no function or associated item named|no associated function|cannot find value|not found in', d['message']) for d in errs_):
             # a function the unit does not know: first try with the helpers of the same file inlined (R-inline)
             r_in = run_unit(path, rlimit, seed, extra_args, quarantine=quarantine, inline=True)
             if r_in.get('inlined'):
